@@ -33,6 +33,9 @@ impl<M: MovingAverageConstructor> KnowSureThing<M> {
 			&& r->Ok_0.roc3v.0.view().len() == self.period3 && r->Ok_0.roc4v.0.view().len() == self.period4,
 		r is Ok ==> self.ma1.seeded(0real, &r->Ok_0.ma1) && self.ma2.seeded(0real, &r->Ok_0.ma2) && self.ma3.seeded(0real, &r->Ok_0.ma3)
 			&& self.ma4.seeded(0real, &r->Ok_0.ma4) && self.signal.seeded(0real, &r->Ok_0.ma5),
+		// C08: for averaging kinds that cannot overshoot and a non-zero close, the constant state for that close (kst_const_step)
+		r is Ok && candle.close_s()@ != 0real && self.ma1.convex_kind() && self.ma2.convex_kind() && self.ma3.convex_kind() && self.ma4.convex_kind() && self.signal.convex_kind()
+			==> r->Ok_0.const_state(candle.close_s()@),
 //@replace Ok(Self::Instance { ==> Ok(KnowSureThingInstance {
 //@end
 }
@@ -119,6 +122,40 @@ impl<M: MovingAverageConstructor> ChaikinOscillatorInstance<M> {
 //@hint result
 	proof { assert(chaikin_step(old(self), candle, self, r.vals()[0], r.sigs()[0], adi, data1, data2, mk(0real))); }
 //@end
+}
+
+// ---- C08 at indicator level (averaging kinds that cannot overshoot, non-zero close): KnowSureThing on a repeated candle returns 0, 0, no signal
+pub open spec fn all_eq(v: Seq<R>, s: real) -> bool { forall|i: int| 0 <= i < v.len() ==> (#[trigger] v[i])@ == s }
+impl<M: MovingAverageConstructor> KnowSureThingInstance<M> {
+	pub open spec fn const_state(&self, s: real) -> bool {
+		&&& self.inv() && s != 0real
+		&&& all_eq(self.roc1v.0.view(), s) && all_eq(self.roc2v.0.view(), s) && all_eq(self.roc3v.0.view(), s) && all_eq(self.roc4v.0.view(), s)
+		&&& self.ma1.convex() && self.ma2.convex() && self.ma3.convex() && self.ma4.convex() && self.ma5.convex()
+		&&& self.ma1.within(0real, 0real) && self.ma2.within(0real, 0real) && self.ma3.within(0real, 0real) && self.ma4.within(0real, 0real) && self.ma5.within(0real, 0real)
+		&&& self.cross.up.last_delta@ == 0real
+	}
+}
+pub proof fn lemma_roc_const(pre: &RateOfChange, x: ValueType, post: &RateOfChange, out: ValueType)
+	requires pre.inv(), all_eq(pre.0.view(), x@), x@ != 0real, RateOfChange::step(pre, &x, post, &out)
+	ensures out@ == 0real, all_eq(post.0.view(), x@)
+{
+	let v = post.0.view();
+	assert forall|i: int| 0 <= i < v.len() implies (#[trigger] v[i])@ == x@ by { if i < v.len() - 1 { assert(v[i] == pre.0.view()[i + 1]); } }
+	assert(pre.0.view()[0]@ == x@);
+	assert(0real / x@ == 0real) by(nonlinear_arith) requires x@ != 0real;
+}
+pub proof fn kst_const_step<M: MovingAverageConstructor>(pre: &KnowSureThingInstance<M>, close: ValueType, post: &KnowSureThingInstance<M>, kst: ValueType, sl: ValueType, sig: Action,
+	r1: ValueType, r2: ValueType, r3: ValueType, r4: ValueType, m1: ValueType, m2: ValueType, m3: ValueType, m4: ValueType)
+	requires pre.const_state(close@), post.inv(), kst_step(pre, close, post, kst, sl, sig, r1, r2, r3, r4, m1, m2, m3, m4)
+	ensures kst@ == 0real, sl@ == 0real, sig is None, post.const_state(close@)
+{
+	lemma_roc_const(&pre.roc1v, close, &post.roc1v, r1); lemma_roc_const(&pre.roc2v, close, &post.roc2v, r2);
+	lemma_roc_const(&pre.roc3v, close, &post.roc3v, r3); lemma_roc_const(&pre.roc4v, close, &post.roc4v, r4);
+	<M::Instance as MovingAverage>::lemma_within_step(&pre.ma1, &r1, &post.ma1, &m1, 0real, 0real);
+	<M::Instance as MovingAverage>::lemma_within_step(&pre.ma2, &r2, &post.ma2, &m2, 0real, 0real);
+	<M::Instance as MovingAverage>::lemma_within_step(&pre.ma3, &r3, &post.ma3, &m3, 0real, 0real);
+	<M::Instance as MovingAverage>::lemma_within_step(&pre.ma4, &r4, &post.ma4, &m4, 0real, 0real);
+	<M::Instance as MovingAverage>::lemma_within_step(&pre.ma5, &kst, &post.ma5, &sl, 0real, 0real);
 }
 } // verus!
 fn main() {}
